@@ -36,6 +36,32 @@ class GenIndex:
                 stack.pop()
             self.mod_at.append('::'.join(s[0] for s in stack))
 
+    HINT_RE = re.compile(r'/\*@vp-hint (\S+) (\S+?)\*/')
+
+    def hint_at(self, line):
+        """(function key, hint id) of the injected proof hint that contains `line`, or None"""
+        j = line
+        while j >= 1:
+            t = self.lines[j - 1]
+            if '/*@vp-hint-end*/' in t and j != line:
+                return None
+            m = self.HINT_RE.search(t)
+            if m:
+                return (m.group(1), m.group(2))
+            if VP_RE.search(t):
+                return None
+            j -= 1
+        return None
+
+    def hints_of(self):
+        """function key -> hint ids present in the generated text"""
+        out = {}
+        for l in self.lines:
+            m = self.HINT_RE.search(l)
+            if m:
+                out.setdefault(m.group(1), []).append(m.group(2))
+        return out
+
     def fn_of(self, line):
         best = None
         for (ln, name, key, src) in self.fn_at:
@@ -70,6 +96,20 @@ class GenIndex:
                 for lab in LABEL_RE.findall(l):
                     f = self.fn_of(i)
                     out.setdefault(lab, []).append({'line': i, 'fn': (f[2] or f[1]) if f else None})
+        return out
+
+    def fn_inherited_labels(self):
+        """function key -> labels on the contract comment lines that say `inherited` (they name the trait-level clause the impl
+        method is checked against; a failure of that clause is reported at the trait, not inside the function)"""
+        out = {}
+        for idx, (ln, name, key, src) in enumerate(self.fn_at):
+            end = self.fn_at[idx + 1][0] if idx + 1 < len(self.fn_at) else len(self.lines)
+            labs = []
+            for i in range(ln, end):
+                l = self.lines[i - 1]
+                if l.strip().startswith('//') and 'inherited' in l:
+                    labs += LABEL_RE.findall(l)
+            out[key or name] = sorted(set(labs))
         return out
 
     def fn_labels(self):
@@ -131,8 +171,38 @@ def failures(gi, diags):
             where = prim[0]['line_start']
         f = gi.fn_of(where) if where else None
         labs = gi.labels_near(clause_line) if clause_line else []
+        if not labs and 'postcondition not satisfied' in msg and f:
+            # a trait-level clause an impl method is checked against: named by the `inherited` labels of the method's contract
+            cf = gi.fn_of(clause_line) if clause_line else None
+            if cf is None or (cf[2] or cf[1]) != (f[2] or f[1]):
+                if not hasattr(gi, '_inh'):
+                    gi._inh = gi.fn_inherited_labels()
+                labs = list(gi._inh.get(f[2] or f[1], []))
         text = gi.lines[clause_line - 1].strip() if clause_line and clause_line <= len(gi.lines) else ''
+        pline = prim[0]['line_start'] if prim else where
         out.append({'kind': classify(msg), 'message': msg, 'fn': (f[2] or f[1]) if f else None, 'src': f[3] if f else None,
+                    'hint': gi.hint_at(pline) if pline else None, 'pline': pline,
                     'module': gi.module_of(where) if where else '', 'line': where, 'clause_line': clause_line, 'clause': text, 'labels': labs,
                     'rendered': d.get('rendered', ''), 'ext': ['%s:%s' % (s.get('file_name'), s.get('line_start')) for s in ext_spans]})
     return out
+
+
+def fsig(f):
+    """line-number independent name of a failed obligation: its labels, or (for an unlabelled one) message kind + clause text"""
+    if f.get('labels'):
+        return 'L:' + ','.join(sorted(f['labels']))
+    return 'U:' + f['message'][:40] + '|' + re.sub(r'\s+', '', f.get('clause') or '')[:160]
+
+
+def inputs_hash():
+    """hash of everything hint_baseline.json depends on besides /repo: contracts, prelude, spec, the extractor"""
+    import glob, hashlib, os
+    verif = os.path.normpath(os.path.join(os.path.dirname(os.path.abspath(__file__)), '..'))
+    h = hashlib.sha256()
+    paths = sorted(glob.glob(os.path.join(verif, 'contracts', '*.vpc'))) + [os.path.join(verif, 'contracts', 'extract.json')]
+    paths += sorted(glob.glob(os.path.join(verif, 'prelude', '*.rs'))) + sorted(glob.glob(os.path.join(verif, 'spec', '*.rs')))
+    paths += [os.path.join(verif, 'tools', 'vpx', 'src', 'main.rs')]
+    for p in paths:
+        h.update(os.path.basename(p).encode())
+        h.update(open(p, 'rb').read())
+    return h.hexdigest()[:24]
